@@ -14,7 +14,7 @@ func init() {
 		"Static conformance of the scope mechanism: (a) the default scope constant each top-level parser passes to the scope-modifier parser equals the README default and its result is what is stored in the statement's Scope; (b) the scope-modifier parser returns the default without '(' and otherwise the type of the GLOBAL/LOCAL token it tested; (c) every label-definition site of the emitter writes the '::' form exactly under the statement's scope flag and the ':' form otherwise, printing the statement's own name; (d) every other label-definition format has no '::' variant and every node the compiler invents is built with a local scope constant. Decides the structural clauses only; it does not run the compiler.",
 		[]string{"oracle (README): script/text/mapscripts default global; movement/mart default local; labels in scripts local unless (global)",
 			"go/ssa lowering is faithful to the source"},
-		"C15.a", "C15.b", "C15.c", "C15.d", "C19.d", "C10.f", "C06.e", "C10.g", "C08.e", "C18.m", "C09.c")
+		"C15.a", "C15.b", "C15.c", "C15.d", "C19.d", "C10.f", "C06.e", "C10.g", "C08.e", "C18.m", "C09.c", "C18.d", "C18.n")
 
 	register(&Rule{ID: "C15.a", Doc: "default scope per statement kind equals the documented default and is stored in Scope", Floor: 5, Run: c15a})
 	register(&Rule{ID: "C15.b", Doc: "parseScopeModifier returns default without '(' else the tested GLOBAL/LOCAL token type", Floor: 2, Run: c15b})
